@@ -670,3 +670,62 @@ Definition run_call (c : copier) (st dt : ty) (k : call) : option value * status
       | (_, stt) => (None, stt)
       end
   end.
+
+(* ---------------------------------------------------------------- boolean equalities
+   (used by the vm_compute cross-check of the extraction and by examples) *)
+Fixpoint list_eqb {A} (eqb : A -> A -> bool) (a b : list A) : bool :=
+  match a, b with
+  | [], [] => true
+  | x :: r, y :: r' => eqb x y && list_eqb eqb r r'
+  | _, _ => false
+  end.
+
+Fixpoint value_eqb (a b : value) {struct a} : bool :=
+  match a, b with
+  | VNum x, VNum y => Z.eqb x y
+  | VStr x, VStr y => list_eqb Z.eqb x y
+  | VStruct x, VStruct y =>
+      (fix go (l l' : list value) {struct l} : bool :=
+         match l, l' with
+         | [], [] => true
+         | u :: r, w :: r' => value_eqb u w && go r r'
+         | _, _ => false
+         end) x y
+  | VPtr None, VPtr None => true
+  | VPtr (Some x), VPtr (Some y) => value_eqb x y
+  | VSlice None, VSlice None => true
+  | VSlice (Some x), VSlice (Some y) =>
+      (fix go (l l' : list value) {struct l} : bool :=
+         match l, l' with
+         | [], [] => true
+         | u :: r, w :: r' => value_eqb u w && go r r'
+         | _, _ => false
+         end) x y
+  | VMap None, VMap None => true
+  | VMap (Some x), VMap (Some y) =>
+      (fix go (l l' : list (value * value)) {struct l} : bool :=
+         match l, l' with
+         | [], [] => true
+         | (k, u) :: r, (k', w) :: r' => value_eqb k k' && value_eqb u w && go r r'
+         | _, _ => false
+         end) x y
+  | VOpaque x, VOpaque y => Z.eqb x y
+  | _, _ => false
+  end.
+
+Definition cerr_code (e : cerr) : Z :=
+  match e with CEntry => 1 | CKind => 2 | CType => 3 | CMultiPtr => 4 | CConvType => 5 | CUser => 6 end.
+
+Definition status_eqb (a b : status) : bool :=
+  match a, b with
+  | SOk, SOk | SPanic, SPanic => true
+  | SErr e, SErr e' => Z.eqb (cerr_code e) (cerr_code e')
+  | _, _ => false
+  end.
+
+Definition optvalue_eqb (a b : option value) : bool :=
+  match a, b with
+  | None, None => true
+  | Some x, Some y => value_eqb x y
+  | _, _ => false
+  end.
